@@ -70,8 +70,8 @@ var props = map[string]propInfo{
 	"C08": {"A", "one evaluation = one simulated run (1-16 tasks calling RandomSecret, interleaved at statement and reader-chunk granularity over a plan-chosen byte stream and chunking); non-trivial = at least one task switch or short read inside a RandomSecret call; distinct = distinct hashes of the hand-over sequence (task, site) combined with the chunk pattern"},
 	"C11": {"A", "one evaluation = one simulated run (1-64 tasks x 1-40 library calls, baton scheduler switching at statement granularity, simulated sync.Pool with poison/steal/miss/drain/adversary); non-trivial = at least one task switch or pool fault fired inside a library call; distinct = distinct hashes of the sequence of (from-task, to-task, site) hand-overs"},
 	"C12": {"A", "one evaluation = one simulated run as for C11 with canary arenas, shared parameter structs and scribbled results; non-trivial = at least one task switch or pool fault fired inside a library call; distinct = distinct hashes of the hand-over sequence"},
-	"C18": {"C", "one evaluation = one synctest bubble running the real api.Server over simulated connections (1-8 clients, 1-60 connections, 20-150 transport/request events); non-trivial = at least one well-formed request answered and compared with the request model; distinct = distinct tuples (endpoint, field-presence mask, digits/hash spelling class, status, connection reuse, burst)"},
-	"C19": {"C", "one evaluation = one synctest bubble as for C18 with adversarial requests and transport faults; non-trivial = at least one adversarial request or transport fault followed by a judged probe; distinct = distinct tuples (endpoint, attack kind, transport fault kind, status class, probe outcome)"},
+	"C18": {"C", "one evaluation = one synctest bubble running the real api.Server over simulated connections (1-8 clients, 1-60 connections, 20-150 transport/request events); non-trivial = at least one well-formed request answered and compared with the request model; distinct = distinct tuples (endpoint, method, request class, expectation class, status, connection reused, role, number of body fields, model verdict) of answered requests"},
+	"C19": {"C", "one evaluation = one synctest bubble as for C18 with adversarial requests and transport faults; non-trivial = at least one adversarial request or transport fault followed by a judged probe; distinct = distinct tuples (endpoint, method, attack kind, expectation class, status, connection reused, role main/probe-same-conn/probe-fresh-conn/probe-final, number of body fields, model verdict) of answered requests"},
 }
 
 type worldInfo struct {
